@@ -112,6 +112,20 @@ func HarnessC07Concurrent() {
 		run(func() { st.DeleteGraph(ctx, "?k") }, func() { st.Graph(ctx, "?k") })
 		_, ge := st.Graph(ctx, "?k")
 		verif.Assert(ge != nil, "C07/dropped-graph-is-gone")
+		// a create racing with a client that gets the graph by name and writes to it:
+		// whoever obtains the graph obtains a complete one
+		added := false
+		run(func() { st.NewGraph(ctx, "?m") }, func() {
+			if g2, err := st.Graph(ctx, "?m"); err == nil {
+				added = g2.AddTriples(ctx, pool[1:2]) == nil
+			}
+		})
+		gm, gerr := st.Graph(ctx, "?m")
+		verif.Assert(gerr == nil, "C07/created-graph-is-there")
+		if gerr == nil {
+			ex, _ := gm.Exist(ctx, pool[1])
+			verif.Assert(ex == added, "C07/write-through-a-handle-obtained-during-create-is-kept")
+		}
 	case 4: // two lookups sharing one LookupOptions value with LatestAnchor
 		verif.Class("two-lookups-sharing-one-LookupOptions-with-LatestAnchor")
 		lo := &storage.LookupOptions{LatestAnchor: true}
